@@ -5,11 +5,14 @@ Each check runs the same pipeline (lmm_common) with its own generation parameter
   C16  MaxMinFair + Exact (maxmin: selective, full, fresh), BmfFair (bmf)
   C17  SelFresh, SelFull (+ the wrap-around family through the driver's seam, + Visited.tla, + the mirror of the
        modified-set bookkeeping explored by TLC, whose counter-example is replayed on the real code)
-  C18  TransOk, ConcOk, NoStarv after every operation
+  C18  TransOk, ConcOk, NoStarv after every operation (+ the families of waiting queues: `-simulate` with LmmGen!NextQ and
+       the exhaustive scopes LmmGen fam = 2, see wake_scopes / checks/C18.py)
 A failed predicate is a violation when re-running the same history fails again.  Its signature is
   <property>:<kind>:<predicate>:cause=<tags>
 where the tags are the cause tags Lmm.tla raised on that history (situations in which the pinned commit is known to
 deviate: KNOWN_FINDINGS.jsonl) restricted to the ones that can explain this (kind, predicate); `cause=none` otherwise.
+For the predicates of C18 the tags are those of the rejected step itself (Lmm!Pinned evaluated by LmmTrace.tla: the
+observed state is what a recorded deviation does there), not sticky ones.
 """
 import json, os, time
 import vlib
@@ -72,12 +75,71 @@ def gen_params(prop, quick):
                     lims=[1, 1, 1, 2, 2, 3, 4, -1], caps=[2, 3], pols=[0, 1, 1, 1, 1])
 
 
+def queue_params(quick, wide):
+    """C18: the `-simulate` family of waiting queues (LmmGen!NextQ): few limited SHARED constraints, variables created
+    suspended or not, elements that take a slot (weight >= 1) or not (0, 0.5); `wide`: 2-3 constraints instead of 1-2"""
+    return L.params(maxc=3 if wide else 2, minc=2 if wide else 1, maxv=10 if quick else 14, len=32 if quick else 60, cbounds=[10],
+                    vbounds=[-1], pens=[0, 0, 1, 1, 2], ws=[0, 1, 1, 2, 2, 4], lims=[1, 1, 2] if quick else [1, 1, 2, 3],
+                    caps=[2, 3], pols=[1], late=0, fam=1)
+
+
+def wake_scopes(quick):
+    """C18: the exhaustive scopes of waiting queues (LmmGen fam = 2): (name, parameters).  ln = 0: the scope is finite by
+    itself (limits, variables and cumulated weights are bounded) and explored completely; otherwise ln operations."""
+    def sc(name, bases, maxv, ws, ln=0):
+        return name, L.params(bases=bases, maxc=1, minc=1, maxv=maxv, len=ln or 60, bounded=1 if ln else 0, cbounds=[10],
+                              vbounds=[-1], pens=[0, 1], ws=ws, lims=[1], caps=[2], pols=[1], late=1, fam=2, susp=0, maxw=2)
+    def cn(limsets):
+        return [[O("cnew", 10, 1, l) for l in ls] for ls in limsets]
+    # from empty systems with one or two limited constraints; and every continuation (3 operations, 5 in the thorough tier)
+    # of the queues of QUEUE_BASE, where an enabled variable can also run into the other, full, constraint
+    qb = [L.strip(L.QUEUE_BASE[:-1])]
+    if quick:
+        return [sc("1c_4v_w02", cn([[1], [2]]), 4, [0, 2]), sc("1c_3v_w012", cn([[1]]), 3, [0, 1, 2]), sc("2c_queues", qb, 6, [1, 2], 4)]
+    return [sc("1c_4v_w012", cn([[1], [2]]), 4, [0, 1, 2]), sc("2c_3v_w12", cn([[1, 1], [1, 2], [2, 1]]), 3, [1, 2], 11),
+            sc("2c_queues", qb, 7, [0, 1, 2], 6)]
+
+
+def wake_histories(ctx, quick):
+    """Every history of the scopes in which a release wakes >= 2 staged variables waiting on one constraint (+ solve)."""
+    def one(sc):
+        name, par = sc
+        pf = os.path.join(ctx.scratch, "wake_%s_params.json" % name)
+        json.dump(par, open(pf, "w"))
+        r = vlib.tlc(os.path.join(L.LSPEC, "LmmGen.tla"), cfg=os.path.join(L.LSPEC, "LmmGen_wake.cfg"), env={"LMM_PARAMS": pf},
+                     workers=2 if quick else None, timeout=900 if quick else 2400, xmx="3g")
+        L._check_tlc(r, "exhaustive scope of waiting queues (%s)" % name)
+        return name, r, L._parse_hists(r)
+    out, info, seen = [], {}, set()
+    for name, r, hs in vlib.parallel_map(one, wake_scopes(quick), nproc=3):
+        ctx.add_tlc(r)
+        new = [h for h in hs if json.dumps(L.strip(h), sort_keys=True) not in seen]
+        seen |= {json.dumps(L.strip(h), sort_keys=True) for h in new}
+        info[name] = {"distinct_states": r.distinct, "generated": r.generated, "depth": r.diameter, "wall_s": round(r.wall, 1),
+                      "histories": len(hs), "invariants": ["ConcurrencyOk", "NoStarvation"]}
+        out += new
+    ctx.cov["wake_scopes"] = info
+    return out
+
+
+def wake_stats(hs):
+    """measured concurrency coverage of a family (the annotations are LmmGen!WakeInfo, computed by TLC)"""
+    ev = [o for h in hs for o in h if o.get("wake", {}).get("q", 0) >= 2]
+    return {"histories": len(hs),
+            "with_staged_variable_enabled": sum(1 for h in hs if any(o.get("wake", {}).get("n", 0) >= 1 for o in h)),
+            "with_multi_wake": sum(1 for h in hs if any(o.get("wake", {}).get("q", 0) >= 2 for o in h)),
+            "multi_wake_events": len(ev), "with_slotless_element": sum(1 for o in ev if o["wake"]["z"]),
+            "by_free": sum(1 for o in ev if o["op"] == "free"), "by_staging_expand": sum(1 for o in ev if o["op"] == "expand")}
+
+
 def ext_params(prop, par):
     """alphabets of the exhaustive extensions of base histories (small on purpose: every combination is replayed)"""
     p = dict(par)
     p.update(len=3, cbounds=[0, 3] if prop == "C17" else [3, 6] if prop != "C18" else [3], vbounds=[-1, 2],
-             pens=[0, 1, 2] if prop != "C15" else [0, 1], ws=[2] if prop == "C18" else [1, 2], lims=[1], pols=[1], caps=[2],
-             maxc=3, maxv=6)
+             pens=[0, 1, 2] if prop != "C15" else [0, 1], ws=[1, 2], lims=[1], pols=[1], caps=[2],
+             maxc=3, maxv=6, fam=0, late=0)
+    if prop == "C18":      # its bases hold up to 5 variables: a bound is never changed, no third constraint
+        p.update(vbounds=[-1], pens=[0, 1], minc=1, maxc=2)
     return p
 
 
@@ -87,6 +149,18 @@ def cut_after_solve(h, rng):
     if not idx:
         return None
     return h[:rng.choice(idx) + 1]
+
+
+def small_prefix(h, maxv):
+    """the longest prefix of a history that ends with a solve and creates at most maxv variables (None: there is none)"""
+    nv, best = 0, None
+    for i, o in enumerate(h):
+        nv += o["op"] == "vnew"
+        if nv > maxv:
+            break
+        if o["op"] == "solve" and nv >= 3:
+            best = i
+    return h[:best + 1] if best is not None else None
 
 
 def nontrivial(prop, h, rec):
@@ -100,10 +174,23 @@ def nontrivial(prop, h, rec):
 
 
 # ------------------------------------------------------------------------------------------- evaluation of one batch
-def evaluate(ctx, prop, hists, tag):
+def evaluate(ctx, prop, hists, tag, mm_only=()):
     """Replays the histories, lets TLC judge them; returns (hdr, recs, aborts, failures) where failures maps
-    (history index, kind, predicate) relevant to `prop` to (first operation index where it fails, cause tags)."""
-    hdr, recs, aborts = L.run_driver(ctx, hists, tag=tag + "_drv")
+    (history index, kind, predicate) relevant to `prop` to (first operation index where it fails, cause tags).
+    mm_only: indices of the histories replayed on the two MaxMin systems only (C18: the concurrency bookkeeping is the
+    code of lmm::System, shared by every solver)."""
+    mm_only = set(mm_only)
+    if mm_only:
+        ia = [n for n in range(len(hists)) if n not in mm_only]
+        ib = sorted(mm_only)
+        recs, aborts = [None] * len(hists), [None] * len(hists)
+        for idx, kinds in ((ia, L.KINDS), (ib, ["mmsel", "mmfull"])):
+            if idx:
+                hdr, r, a = L.run_driver(ctx, [hists[n] for n in idx], tag="%s_drv%d" % (tag, len(kinds)), kinds=kinds)
+                for j, n in enumerate(idx):
+                    recs[n], aborts[n] = r[j], a[j]
+    else:
+        hdr, recs, aborts = L.run_driver(ctx, hists, tag=tag + "_drv")
     bad = L.validate(ctx, hists, hdr, recs, tag=tag + "_tv")
     fails = {}
     # one failure is kept per (history, kind, predicate): the first one.  The tags of the concurrency predicates (C18) are
@@ -126,7 +213,7 @@ def evaluate(ctx, prop, hists, tag):
     return hdr, recs, aborts, fails
 
 
-def report(ctx, prop, hists, recs, aborts, fails, origin_of):
+def report(ctx, prop, hists, recs, aborts, fails, origin_of, mm_only=()):
     """Confirm by re-running each failing history, then report (violation or known finding, decided by the signature)."""
     if not fails:
         return
@@ -141,7 +228,7 @@ def report(ctx, prop, hists, recs, aborts, fails, origin_of):
         ctx.cov["rejections_by_signature"][sig] = ctx.cov["rejections_by_signature"].get(sig, 0) + len(lst)
         todo += [(sig, x) for x in (lst[:2] if known else lst[:8])]
     hs = sorted({x[0] for _, x in todo})
-    _, recs2, aborts2, fails2 = evaluate(ctx, prop, [hists[h] for h in hs], "re")
+    _, recs2, aborts2, fails2 = evaluate(ctx, prop, [hists[h] for h in hs], "re", mm_only=[j for j, h in enumerate(hs) if h in mm_only])
     again = {(hs[h], k, w): v for (h, k, w), v in fails2.items()}
     for sig, (h, k, w, i, tags) in todo:
         if (h, k, w) not in again or again[(h, k, w)][0] != i:
@@ -238,7 +325,8 @@ def run(ctx, prop):
     _, seam = L.driver()
     # VERIF_LMM_SCALE (default 1) scales the number of random histories: only meant for experiments on a loaded machine
     scale = float(os.environ.get("VERIF_LMM_SCALE", "1"))
-    n_rand = max(12, int(({"C15": 300, "C16": 300, "C17": 260, "C18": 300}[prop] if quick else 2000) * scale))
+    n_rand = max(12, int(({"C15": 300, "C16": 300, "C17": 260, "C18": 80}[prop] if quick else 1200 if prop == "C18" else 2000) * scale))
+    n_queue = max(12, int((60 if quick else 400) * scale))        # C18: per variant of the family of waiting queues
     t0 = time.time()
     # ---- G: histories from the specification
     reg_names = sorted(L.REGRESSION)
@@ -249,26 +337,39 @@ def run(ctx, prop):
         idx = [i for i, o in enumerate(h) if o["op"] == "solve"]
         return h[:idx[0] + 1] if len(idx) >= 2 else None
     bases = [b for b in (first_solve(h) for n, h in zip(reg_names, reg) if n in ("modset", "zerocap", "suspnorelease", "suspstaged")) if b]
-    extra = L.annotate(ctx, [L.REGRESSION["suspnorelease"][:5] + [O("solve")], L.RICH_BASE], "b18")
+    extra = L.annotate(ctx, [L.REGRESSION["suspnorelease"][:5] + [O("solve")], L.RICH_BASE, L.QUEUE_BASE], "b18")
     if prop == "C18":
-        bases.append(extra[0])
+        bases = [extra[0], extra[2]]     # a staged variable behind a limit of 1; queues behind two limited constraints
     elif prop in ("C15", "C16") or not quick:
         bases.append(extra[1])           # (quick C17: its alphabets make the extensions of the rich base too many)
     # ---- M (in the background, while the histories are generated)
     from concurrent.futures import ThreadPoolExecutor
-    pool_m = ThreadPoolExecutor(max_workers=2)
+    pool_m = ThreadPoolExecutor(max_workers=3)
     tm = time.time()
     f_mc = pool_m.submit(model_check, ctx, prop, bases, quick)
     f_vis = pool_m.submit(visited_model, ctx, quick) if prop == "C17" else None
-    rnd = L.random_histories(ctx, par, n_rand, "rnd", nproc=6 if quick else 16, timeout=900 if quick else 2400)
-    fam = {"regression": reg, "random": rnd}
+    f_wake = pool_m.submit(wake_histories, ctx, quick) if prop == "C18" else None
+    if prop == "C18":        # the general mix and the two variants of the family of waiting queues, at the same time
+        import random
+        jobs = [(par, n_rand, "rnd", 3 if quick else 8), (queue_params(quick, 0), n_queue, "que0", 2 if quick else 4),
+                (queue_params(quick, 1), n_queue, "que1", 2 if quick else 4)]
+        jobs = [j + (random.Random(ctx.rng.randrange(1 << 30)),) for j in jobs]
+        res = vlib.parallel_map(lambda j: L.random_histories(ctx, j[0], j[1], j[2], nproc=j[3], timeout=900 if quick else 2400,
+                                                             rng=j[4]), jobs, nproc=3)
+        rnd = res[0]
+        fam = {"regression": reg, "random": rnd, "queues": res[1] + res[2]}
+    else:
+        rnd = L.random_histories(ctx, par, n_rand, "rnd", nproc=6 if quick else 16, timeout=900 if quick else 2400)
+        fam = {"regression": reg, "random": rnd}
     if prop == "C17" and seam:
         fam["wrap"] = L.random_histories(ctx, dict(par, ff=[0, 0, 1], len=par["len"]), 60 if quick else 600, "ffr",
                                          nproc=2 if quick else 8, timeout=900)
         fam["wrap"] = [h for h in fam["wrap"] if any(o["op"] == "ff" for o in h)]
-    pool = [h for h in rnd if len([o for o in h if o["op"] == "solve"]) >= 2]
+    pool = [h for h in (fam["queues"] if prop == "C18" else rnd) if len([o for o in h if o["op"] == "solve"]) >= 2]
     ctx.rng.shuffle(pool)
-    nb = (1 if prop in ("C15", "C16") else 2) if quick else 8
+    nb = (1 if prop in ("C15", "C16", "C18") else 2) if quick else 8
+    if prop == "C18":      # small systems only: the number of extensions grows with the square of the number of variables
+        pool = [h for h in (small_prefix(h, 5 if quick else 7) for h in pool) if h]
     bases_r = [b for b in (cut_after_solve(h, ctx.rng) for h in pool[:nb]) if b]
     ext_bases = bases + bases_r
     ext, r_ext = L.extensions(ctx, ext_bases, ext_params(prop, par), "ext", timeout=900 if quick else 2400)
@@ -280,10 +381,12 @@ def run(ctx, prop):
         fam["guided"] = L.annotate(ctx, guided, "guided")
     if f_vis:
         model_says_wrap = f_vis.result()
+    if f_wake:
+        fam["wake"] = f_wake.result()
     pool_m.shutdown()
     vlib.log("%s: model checking done %.1fs after its start" % (prop, time.time() - tm))
     # ---- T: the real systems, judged by TLC (one batch)
-    order = [n for n in ("regression", "guided", "wrap", "random", "extensions") if fam.get(n)]
+    order = [n for n in ("regression", "guided", "wrap", "random", "queues", "wake", "extensions") if fam.get(n)]
     hs, origin = [], []
     for name in order:
         hs += fam[name]
@@ -298,17 +401,25 @@ def run(ctx, prop):
     missing = [k for k in ("cnew", "vnew", "expand", "free", "vbound", "vpen", "cbound", "solve") if not opc.get(k)]
     if missing:
         raise vlib.InfraError("the generated histories never use %s: nothing would be checked for them" % missing)
+    if prop == "C18":
+        # what the generated histories exercise of on_disabled_var (annotations computed by TLC: LmmGen!WakeInfo)
+        cc = {name: wake_stats(fam[name]) for name in order}
+        ctx.cov["concurrency_coverage"] = cc
+        if not fam.get("wake") or not sum(c["with_slotless_element"] for c in cc.values()) or \
+                (scale >= 1 and not sum(c["multi_wake_events"] for n, c in cc.items() if n != "wake")):
+            raise vlib.InfraError("no generated history releases a slot for which two staged variables wait (%s): the scan "
+                                  "of the waiting list would not be checked" % json.dumps(cc))
     t0 = time.time()
-    hdr, recs, aborts, fails = evaluate(ctx, prop, hs, "all")
+    mm_only = {n for n in range(len(hs)) if origin[n] in ("queues", "wake")}
+    hdr, recs, aborts, fails = evaluate(ctx, prop, hs, "all", mm_only=mm_only)
     vlib.log("%s: %d histories replayed and judged in %.1fs" % (prop, len(hs), time.time() - t0))
     ctx.cov["families"] = {name: {"histories": len(fam[name]),
                                   "failing": len({h for (h, k, w) in fails if origin[h] == name})} for name in order}
     ctx.cov["bmf_explicit_errors"] = sum(1 for ab in aborts for a in ab.values() if a.get("bmf_error"))
     for n, h in enumerate(hs):
         ctx.count(L.strip(h), nontrivial=nontrivial(prop, h, recs[n]))
-    nsolve = sum(1 for h in hs for o in h if o["op"] == "solve")
-    ctx.cov["solves_checked"] = nsolve * len(L.ALLKINDS)
-    ctx.cov["operations_checked"] = sum(len(h) for h in hs) * len(L.KINDS)
+    ctx.cov["solves_checked"] = sum((3 if n in mm_only else len(L.ALLKINDS)) for n, h in enumerate(hs) for o in h if o["op"] == "solve")
+    ctx.cov["operations_checked"] = sum(len(h) * (2 if n in mm_only else len(L.KINDS)) for n, h in enumerate(hs))
     for name in ("random", "extensions", "regression"):
         idx = [n for n in range(len(hs)) if origin[n] == name]
         for n in idx[:1] + idx[len(idx) // 2:len(idx) // 2 + 1]:
@@ -317,7 +428,7 @@ def run(ctx, prop):
             ctx.sample({"family": name, "history": L.brief(h), "exact_last_solve": h[last]["exp"],
                         "impl_last_solve": {k: (recs[n][k][last] or {}).get("f") for k in L.ALLKINDS}}, limit=5)
     t0 = time.time()
-    report(ctx, prop, hs, recs, aborts, fails, lambda h: origin[h])
+    report(ctx, prop, hs, recs, aborts, fails, lambda h: origin[h], mm_only=mm_only)
     vlib.log("%s: %d failing (history, kind, predicate) confirmed/reported in %.1fs" % (prop, len(fails), time.time() - t0))
     if prop == "C17":
         wrap_seen = any("wrap" in s for s in ctx.cov.get("rejections_by_signature", {}))
@@ -331,11 +442,17 @@ def run(ctx, prop):
     ctx.cov["rule"] = ("histories = sequences of lmm::System API operations generated by TLC from spec/lmm/Lmm.tla: regression "
                        "cases, %d seeded `-simulate` histories of %d operations (<= %d constraints, <= %d variables), every "
                        "extension by 2 operations + solve of %d base systems%s; "
-                       "each is replayed on MaxMin selective/full, a fresh system per solve, BMF and FairBottleneck and "
+                       "each is replayed on MaxMin selective/full, a fresh system per solve, BMF and FairBottleneck%s and "
                        "judged by TLC (LmmTrace.tla) on the implementation's values; non-trivial for %s = %s; distinct by "
                        "canonical hash of the operation sequence" %
                        (n_rand, par["len"], par["maxc"], par["maxv"], ctx.cov["exhaustive_extension_bases"],
-                        ", the wrap-around family, TLC's counter-example of the bookkeeping mirror" if prop == "C17" else "", prop,
+                        ", the wrap-around family, TLC's counter-example of the bookkeeping mirror" if prop == "C17" else
+                        (", 2 x %d seeded `-simulate` histories of the family of waiting queues (LmmGen!NextQ: staged variables "
+                         "pile up behind limited constraints, with elements of weight 0 / 0.5 that take no slot, and the slots are "
+                         "released by a free or by a staging expand while they wait), and every history of the exhaustive scopes "
+                         "of waiting queues %s in which one operation wakes >= 2 staged variables waiting on one constraint"
+                         % (n_queue, sorted(ctx.cov["wake_scopes"]))) if prop == "C18" else "",
+                        " (the two families of waiting queues: on the two MaxMin systems only)" if prop == "C18" else "", prop,
                         {"C15": "some solve gives a positive rate to >= 2 variables", "C16": "some solve gives a positive rate to >= 2 variables",
                          "C17": ">= 2 solves with positive rates (modifications in between)",
                          "C18": "some variable was staged by the implementation"}[prop]))
